@@ -67,6 +67,15 @@ type Envelope struct {
 
 func (e Envelope) EventTypeName() string { return "c09.envelope." + e.Kind }
 
+// KindEv is named by a field that legacy events leave empty: its type name is
+// then the empty string, and that - not anything else - is the record's type.
+type KindEv struct {
+	ID   int    `json:"id"`
+	Kind string `json:"kind"`
+}
+
+func (e KindEv) EventTypeName() string { return e.Kind }
+
 // PtrMarsh has a pointer-receiver MarshalJSON: encoding/json uses it only for
 // addressable values, so an event published by value encodes field by field
 // (json.Marshal(event) is the stated reference).
@@ -343,6 +352,7 @@ func Run(c *Case) *vkit.Outcome {
 	eventbus.Subscribe(bus, func(e *NamedPtr) { inHandler(e.ID, e) })
 	eventbus.Subscribe(bus, func(e *Named) { inHandler(e.ID, e) })
 	eventbus.Subscribe(bus, func(e Envelope) { inHandler(e.ID, e) })
+	eventbus.Subscribe(bus, func(e KindEv) { inHandler(e.ID, e) })
 	eventbus.Subscribe(bus, func(e PtrMarsh) { inHandler(e.ID, e) })
 	eventbus.Subscribe(bus, func(e *PtrMarsh) { inHandler(e.ID, e) })
 	eventbus.Subscribe(bus, func(e Holder) { inHandler(e.ID, e) })
@@ -371,6 +381,13 @@ func Run(c *Case) *vkit.Outcome {
 		case "envelope":
 			// the name varies with the value: S picks one of a few kinds
 			e := Envelope{ID: id, Kind: fmt.Sprintf("k%d", len(v.S)%3)}
+			ev = e
+			eventbus.Publish(bus, e)
+		case "kindev":
+			e := KindEv{ID: id}
+			if len(v.S)%2 == 1 {
+				e.Kind = "c09.kind.a"
+			}
 			ev = e
 			eventbus.Publish(bus, e)
 		case "ptrmarsh":
@@ -612,6 +629,12 @@ func decodesBack(se *eventbus.StoredEvent, want []byte) bool {
 			return false
 		}
 		v = &e
+	case "", "c09.kind.a":
+		var e KindEv
+		if json.Unmarshal(se.Data, &e) != nil || e.EventTypeName() != se.Type {
+			return false
+		}
+		v = e
 	case "c09.named.v1":
 		var e Named
 		if json.Unmarshal(se.Data, &e) != nil {
